@@ -1,0 +1,314 @@
+//! Verification hooks and introspection shims.
+//!
+//! Compiled only with `--cfg circ_verif`. Nothing in here is part of the library's API; it lets an
+//! external conformance harness (a) schedule threads deterministically at the points where the
+//! library accesses shared words (`pre`), (b) observe internal decisions (`ev`), and (c) reach a
+//! few crate-private pieces (epochs, private collectors, the internal queue and list, the packed
+//! count word helpers).
+#![allow(missing_docs, clippy::missing_safety_doc, dead_code)]
+
+use std::cell::Cell;
+use std::sync::atomic::{AtomicBool, AtomicU32, AtomicUsize, Ordering};
+
+pub type PreFn = fn(u32);
+pub type EvFn = fn(u32, usize, u64, u64);
+
+static PRE: AtomicUsize = AtomicUsize::new(0);
+static EV: AtomicUsize = AtomicUsize::new(0);
+/// Bit mask of site classes (see [`site::class`]) at which managed threads yield.
+static CLASS_MASK: AtomicU32 = AtomicU32::new(site::CLASS_RC);
+/// When set, `try_advance` is a no-op except inside [`force_advance`].
+static ADVANCE_BLOCKED: AtomicBool = AtomicBool::new(false);
+/// When set, every deferral seals the local bag immediately (bag epoch = deferral epoch).
+static SEAL_ON_DEFER: AtomicBool = AtomicBool::new(false);
+
+thread_local! {
+    static MANAGED: Cell<bool> = const { Cell::new(false) };
+    static FORCED: Cell<bool> = const { Cell::new(false) };
+}
+
+/// Site identifiers. One `pre` site sits immediately before one access of a shared word.
+pub mod site {
+    pub const CLASS_RC: u32 = 1;
+    pub const CLASS_EBR: u32 = 2;
+    pub const CLASS_QUEUE: u32 = 4;
+    pub const CLASS_LIST: u32 = 8;
+
+    // utils.rs (count word)
+    pub const U_INC_FAA1: u32 = 1;
+    pub const U_INC_FAA2: u32 = 2;
+    pub const U_ISND_LOAD: u32 = 3;
+    pub const U_ISND_CAS: u32 = 4;
+    pub const U_DEC_EPOCH: u32 = 10;
+    pub const U_DEC_LOAD: u32 = 11;
+    pub const U_DEC_CAS: u32 = 12;
+    pub const U_TD_LOAD: u32 = 20;
+    pub const U_TD_CAS: u32 = 21;
+    pub const U_DG_ENTER: u32 = 30;
+    pub const U_DG_LOAD: u32 = 31;
+    pub const U_DG_EPOCH: u32 = 32;
+    pub const U_DG_WEAKED: u32 = 33;
+    pub const U_DG_CHILD_LOAD: u32 = 34;
+    pub const U_DG_CHILD_CAS: u32 = 35;
+    pub const U_DG_POP: u32 = 36;
+    pub const U_DEALLOC: u32 = 37;
+    pub const U_INCW_LOAD: u32 = 40;
+    pub const U_INCW_CAS: u32 = 41;
+    pub const U_INCW_FAA1: u32 = 42;
+    pub const U_INCW_FAA2: u32 = 43;
+    pub const U_DECW_FAA: u32 = 44;
+    pub const U_TDEALLOC_LOAD: u32 = 45;
+    // strong.rs (links)
+    pub const S_TS_EPOCH: u32 = 60;
+    pub const S_TS_DONE: u32 = 61;
+    pub const S_LOAD: u32 = 62;
+    pub const S_STORE: u32 = 63;
+    pub const S_SWAP: u32 = 64;
+    pub const S_CAS: u32 = 65;
+    pub const S_CASW: u32 = 66;
+    pub const S_CAST: u32 = 67;
+    // weak.rs (links)
+    pub const W_LOAD: u32 = 80;
+    pub const W_STORE: u32 = 81;
+    pub const W_SWAP: u32 = 82;
+    pub const W_CAS: u32 = 83;
+    pub const W_CASW: u32 = 84;
+    pub const W_CAST: u32 = 85;
+    // internal.rs (EBR)
+    pub const E_PIN_READ: u32 = 100;
+    pub const E_PIN_PUBLISH: u32 = 101;
+    pub const E_PIN_VALIDATE: u32 = 102;
+    pub const E_PIN_RESET: u32 = 103;
+    pub const E_ADV_READ: u32 = 110;
+    pub const E_ADV_SCAN: u32 = 111;
+    pub const E_ADV_STORE: u32 = 112;
+    pub const E_PUSH_EPOCH: u32 = 120;
+    pub const E_PUSH_ENQ: u32 = 121;
+    pub const E_COLLECT_POP: u32 = 122;
+    pub const E_REPIN_READ: u32 = 123;
+    pub const E_REPIN_STORE: u32 = 124;
+    pub const E_UNPIN_STORE: u32 = 125;
+    pub const E_FINALIZE: u32 = 126;
+    // sync/queue.rs
+    pub const Q_PUSH_TAIL_LOAD: u32 = 140;
+    pub const Q_PUSH_NEXT_LOAD: u32 = 141;
+    pub const Q_PUSH_HELP_CAS: u32 = 142;
+    pub const Q_PUSH_LINK_CAS: u32 = 143;
+    pub const Q_PUSH_TAIL_CAS: u32 = 144;
+    pub const Q_POP_HEAD_LOAD: u32 = 145;
+    pub const Q_POP_NEXT_LOAD: u32 = 146;
+    pub const Q_POP_HEAD_CAS: u32 = 147;
+    pub const Q_POP_TAIL_LOAD: u32 = 148;
+    pub const Q_POP_TAIL_CAS: u32 = 149;
+    // sync/list.rs
+    pub const L_INS_LOAD: u32 = 160;
+    pub const L_INS_CAS: u32 = 161;
+    pub const L_DEL: u32 = 162;
+    pub const L_ITER_HEAD: u32 = 163;
+    pub const L_IT_NEXT_LOAD: u32 = 164;
+    pub const L_IT_UNLINK_CAS: u32 = 165;
+    pub const L_IT_RESTART_LOAD: u32 = 166;
+
+    // events (`ev`), not scheduling points
+    pub const EV_DEALLOC: u32 = 201;
+    pub const EV_DEFER_DESTRUCT: u32 = 202;
+    pub const EV_DEFER_DEALLOC: u32 = 203;
+    pub const EV_EXEC_DESTRUCT: u32 = 204;
+    pub const EV_EXEC_DEALLOC: u32 = 205;
+    pub const EV_DG_DECIDE: u32 = 206;
+    pub const EV_DG_CHILD: u32 = 207;
+    pub const EV_PIN: u32 = 220;
+    pub const EV_UNPIN_BEGIN: u32 = 221;
+    pub const EV_UNPIN_END: u32 = 222;
+    pub const EV_REPIN: u32 = 223;
+    pub const EV_ADVANCE: u32 = 224;
+    pub const EV_SEAL: u32 = 225;
+    pub const EV_POP_BAG: u32 = 226;
+    pub const EV_Q_PRED: u32 = 240;
+    pub const EV_L_FINALIZE: u32 = 241;
+
+    pub const fn class(site: u32) -> u32 {
+        if site < 100 {
+            CLASS_RC
+        } else if site < 140 {
+            CLASS_EBR
+        } else if site < 160 {
+            CLASS_QUEUE
+        } else {
+            CLASS_LIST
+        }
+    }
+}
+
+/// Installs the scheduling and event callbacks (process wide).
+pub fn set_hooks(pre: PreFn, ev: EvFn) {
+    PRE.store(pre as usize, Ordering::SeqCst);
+    EV.store(ev as usize, Ordering::SeqCst);
+}
+
+/// Marks the calling thread as managed: it calls the `pre` callback at every enabled site.
+pub fn set_managed(b: bool) {
+    let _ = MANAGED.try_with(|m| m.set(b));
+}
+
+pub fn is_managed() -> bool {
+    MANAGED.try_with(|m| m.get()).unwrap_or(false)
+}
+
+/// Selects the site classes at which managed threads yield.
+pub fn set_class_mask(mask: u32) {
+    CLASS_MASK.store(mask, Ordering::SeqCst);
+}
+
+/// Disables (or re-enables) every epoch advance that is not wrapped in [`force_advance`].
+pub fn set_advance_blocked(b: bool) {
+    ADVANCE_BLOCKED.store(b, Ordering::SeqCst);
+}
+
+/// Makes every deferral seal the local bag at once.
+pub fn set_seal_on_defer(b: bool) {
+    SEAL_ON_DEFER.store(b, Ordering::SeqCst);
+}
+
+pub(crate) fn seal_on_defer() -> bool {
+    SEAL_ON_DEFER.load(Ordering::SeqCst)
+}
+
+pub(crate) fn advance_blocked() -> bool {
+    ADVANCE_BLOCKED.load(Ordering::SeqCst) && !FORCED.try_with(|m| m.get()).unwrap_or(false)
+}
+
+#[inline]
+pub(crate) fn pre(site: u32) {
+    if MANAGED.try_with(|m| m.get()).unwrap_or(false)
+        && (site::class(site) & CLASS_MASK.load(Ordering::Relaxed)) != 0
+    {
+        let f = PRE.load(Ordering::SeqCst);
+        if f != 0 {
+            (unsafe { std::mem::transmute::<usize, PreFn>(f) })(site)
+        }
+    }
+}
+
+#[inline]
+pub(crate) fn ev(kind: u32, addr: usize, a: u64, b: u64) {
+    let f = EV.load(Ordering::SeqCst);
+    if f != 0 {
+        (unsafe { std::mem::transmute::<usize, EvFn>(f) })(kind, addr, a, b)
+    }
+}
+
+// ------------------------------------------------------------------------------------------
+// default collector
+
+/// The global epoch of the default collector (unbounded value, not the 4-bit stamp).
+pub fn global_epoch() -> usize {
+    crate::ebr_impl::global_epoch()
+}
+
+/// One attempt to advance the default collector's global epoch from the calling thread
+/// (pins, tries, unpins; never collects). Returns the global epoch afterwards.
+pub fn force_advance() -> usize {
+    let prev = FORCED.with(|m| m.replace(true));
+    let managed = MANAGED.with(|m| m.replace(false));
+    crate::ebr_impl::verif_shim::default_try_advance();
+    MANAGED.with(|m| m.set(managed));
+    FORCED.with(|m| m.set(prev));
+    global_epoch()
+}
+
+/// Seals and publishes the calling thread's local bag (default collector) without scheduling a
+/// collection.
+pub fn seal_local_bag() {
+    crate::ebr_impl::verif_shim::default_seal_local_bag();
+}
+
+/// `(announced epoch value, pinned bit, guard_count, handle_count, local bag length)` of the
+/// calling thread's participant in the default collector.
+pub fn local_info() -> LocalInfo {
+    crate::ebr_impl::verif_shim::default_local_info()
+}
+
+/// Address of the calling thread's participant (`Local`) in the default collector.
+pub fn local_id() -> usize {
+    crate::ebr_impl::verif_shim::default_local_id()
+}
+
+/// Reads the participant at `local` (obtained from [`local_id`] / [`VHandle::local_id`]).
+///
+/// # Safety
+/// The participant must still be registered and its owner must not be running.
+pub unsafe fn peek_local(local: usize) -> LocalInfo {
+    crate::ebr_impl::verif_shim::peek_local(local)
+}
+
+/// Number of sealed bags in the default collector's global queue.
+///
+/// # Safety
+/// No other thread may be running inside the queue.
+pub unsafe fn pending_bags() -> usize {
+    crate::ebr_impl::verif_shim::default_pending_bags()
+}
+
+#[derive(Clone, Copy, Debug, Default, PartialEq, Eq)]
+pub struct LocalInfo {
+    pub epoch: usize,
+    pub pinned: bool,
+    pub guard_count: usize,
+    pub handle_count: usize,
+    pub bag_len: usize,
+    pub collecting: bool,
+}
+
+pub use crate::ebr_impl::verif_shim::{VCollector, VHandle, VList, VQueue};
+pub use crate::ebr_impl::Tagged;
+pub use crate::utils::verif_shim::*;
+
+// ------------------------------------------------------------------------------------------
+// pointer introspection
+
+/// The packed word (`timestamp | address | tag`) held by an `Rc`.
+pub fn rc_word<T: crate::RcObject>(rc: &crate::Rc<T>) -> usize {
+    // `Rc<T>` is a `Tagged` pointer plus a zero-sized marker.
+    unsafe { *(rc as *const crate::Rc<T> as *const usize) }
+}
+
+pub fn snapshot_word<T>(s: &crate::Snapshot<'_, T>) -> usize {
+    unsafe { *(s as *const crate::Snapshot<'_, T> as *const usize) }
+}
+
+pub fn weak_word<T>(w: &crate::Weak<T>) -> usize {
+    unsafe { *(w as *const crate::Weak<T> as *const usize) }
+}
+
+pub fn weak_snapshot_word<T>(s: &crate::WeakSnapshot<'_, T>) -> usize {
+    unsafe { *(s as *const crate::WeakSnapshot<'_, T> as *const usize) }
+}
+
+/// The packed word currently stored in an `AtomicRc` (plain load; no count change).
+pub fn atomic_rc_word<T: crate::RcObject>(a: &crate::AtomicRc<T>) -> usize {
+    unsafe { (*(a as *const crate::AtomicRc<T> as *const AtomicUsize)).load(Ordering::SeqCst) }
+}
+
+pub fn atomic_weak_word<T>(a: &crate::AtomicWeak<T>) -> usize {
+    unsafe { (*(a as *const crate::AtomicWeak<T> as *const AtomicUsize)).load(Ordering::SeqCst) }
+}
+
+/// `(address of the RcInner block, user tag, 4-bit timestamp)` of a packed word for payload `T`.
+pub fn split_word<T>(word: usize) -> (usize, usize, usize) {
+    let t: Tagged<crate::utils::RcInner<T>> = Tagged::from(word as *mut crate::utils::RcInner<T>);
+    (t.as_raw() as usize, t.tag(), t.high_tag())
+}
+
+/// Builds an `Rc` that shares ownership bookkeeping with nothing: a *forged* pointer with the
+/// given timestamp bits, used only to exercise comparison/tag functions on arbitrary epochs.
+///
+/// # Safety
+/// The result must be `forget`-ed, never dropped, unless the caller owns a strong count for it.
+pub unsafe fn rc_with_timestamp<T: crate::RcObject>(rc: crate::Rc<T>, ts: usize) -> crate::Rc<T> {
+    let w = rc_word(&rc);
+    std::mem::forget(rc);
+    let t: Tagged<crate::utils::RcInner<T>> = Tagged::from(w as *mut crate::utils::RcInner<T>);
+    let t = t.with_high_tag(ts);
+    std::mem::transmute_copy::<Tagged<crate::utils::RcInner<T>>, crate::Rc<T>>(&t)
+}
